@@ -27,17 +27,55 @@ let bits_of_z (v : z) : string =
   match v with Z0 -> "0" | Zpos p -> "b" ^ pb p "" | Zneg p -> "-b" ^ pb p ""
 
 let () =
+  (* c4xref <start> <S:kind:bad:stm:prev:lead:gap;...>  ->  <outcome> <starts of the sections read, in order> v=<offsets read_xref was
+     asked to read, in order> ws=<white-space warnings> *)
   register "c4xref" (fun a -> match a with
     | [start; ns] ->
       let g = nodes ns (function
-        | [off; k; bad; stm; prev] ->
+        | [off; k; bad; stm; prev; lead; gap] ->
           (z_of_int (int_of_string off),
            { c4x_kind = (if k = "T" then C4xTable else C4xStream); c4x_bad = b01 bad;
-             c4x_stm = z_of_int (int_of_string stm); c4x_prev = z_of_int (int_of_string prev) })
+             c4x_stm = z_of_int (int_of_string stm); c4x_prev = z_of_int (int_of_string prev);
+             c4x_lead = z_of_int (int_of_string lead); c4x_gap = z_of_int (int_of_string gap) })
         | _ -> failwith "xnode") in
-      let (r, reads) = c4_read_xref g (z_of_int (int_of_string start)) in
-      (match r with C4xOk -> "ok" | C4xLoop -> "loop" | C4xNotFound -> "notfound" | C4xDamaged -> "damaged" | C4xFuel -> "FUEL")
-      ^ " " ^ (match reads with [] -> "-" | _ -> zlist (List.rev reads))
+      let o = c4_read_xref g (z_of_int (int_of_string start)) in
+      let zl l = match l with [] -> "-" | _ -> zlist (List.rev l) in
+      (match o.c4xo_res with C4xOk -> "ok" | C4xLoop -> "loop" | C4xNotFound -> "notfound" | C4xDamaged -> "damaged" | C4xFuel -> "FUEL")
+      ^ " " ^ zl o.c4xo_reads ^ " v=" ^ zl o.c4xo_visited ^ " ws=" ^ sn o.c4xo_ws
+    | _ -> "?args");
+  (* c4jimp <streams: n.g,...|-> <frame_err 0|1> <entries separated by ';'>
+       entry:  o/<n>/<g>/<members separated by ','> | bad | throw/<q|u|r|l|s>
+       member: r.<n>.<g> (value = reference) | d.<ok> (direct value) | s.<isdict><dict><data><datafile><suberr> | i
+     -> <none|runtime|logic|other|...> refused=<n> streams=<n.g,...> *)
+  register "c4jimp" (fun a -> match a with
+    | [tbl; fe; es] ->
+      let og s = match String.split_on_char '.' s with [n; g] -> (ni n, ni g) | _ -> failwith "og" in
+      let tb = if tbl = "-" then [] else List.map og (String.split_on_char ',' tbl) in
+      let exn c = (match c with "q" -> C4eQPDFExc | "u" -> C4eUsage | "r" -> C4eRuntime | "l" -> C4eLogic | _ -> C4eOtherStd) in
+      let member s = match String.split_on_char '.' s with
+        | ["r"; n; g] -> C4jValRef (ni n, ni g)
+        | ["d"; ok] -> C4jValDirect (b01 ok)
+        | ["s"; f] -> C4jStream (f.[0] = '1', f.[1] = '1', f.[2] = '1', f.[3] = '1', f.[4] = '1')
+        | ["i"] -> C4jIgnored
+        | _ -> failwith "jmember" in
+      let entry s = match String.split_on_char '/' s with
+        | ["bad"] -> C4jBadEntry
+        | ["throw"; c] -> C4jThrows (exn c)
+        | ["o"; n; g; ms] -> C4jObj (ni n, ni g, (if ms = "" || ms = "-" then [] else List.map member (String.split_on_char ',' ms)))
+        | _ -> failwith "jentry" in
+      let es' = if es = "-" then [] else List.map entry (String.split_on_char ';' es) in
+      let ((x, refused), t) = c4_import_json tb (b01 fe) es' in
+      (match x with C4eNone -> "none" | C4eQPDFExc -> "QPDFExc" | C4eUsage -> "usage" | C4eRuntime -> "runtime" | C4eLogic -> "logic" | C4eOtherStd -> "other")
+      ^ " refused=" ^ sn refused ^ " streams="
+      ^ (match t with [] -> "-" | _ -> String.concat "," (List.map (fun (n, g) -> sn n ^ "." ^ sn g) t))
+    | _ -> "?args");
+  (* c4png <fixed> <decode> <limit> <columns> <samples_per_pixel> <bits_per_sample>  (numbers as 0 / b<binary digits>) -> err | ok bpr=<n> alloc=<n> incoming=<n> *)
+  register "c4png" (fun a -> match a with
+    | [fx; dec; limit; cols; spp; bps] ->
+      let zi = z_of_bits in
+      (match c4_png_ctor (b01 fx) (b01 dec) (zi limit) (zi cols) (zi spp) (zi bps) with
+       | None -> "err"
+       | Some p -> "ok bpr=" ^ bits_of_z p.c4png_bpr ^ " alloc=" ^ bits_of_z p.c4png_alloc ^ " incoming=" ^ bits_of_z p.c4png_incoming)
     | _ -> "?args");
   register "c4pages" (fun a -> match a with
     | [recon; root; ns] ->
